@@ -133,7 +133,7 @@ class Model {
   void emit_from_bus(int recipient, Exp e, bool floating = false);
   void emit_broadcast_from_bus(const wire::Msg &sig);
   void route(int c, const wire::Msg &m, int addressed);
-  void route_matches(int sender, const wire::Msg &m, int addressed, bool requested);
+  void route_matches(int sender, const wire::Msg &m, int addressed, bool requested, bool policy_lenient = false);
   void driver(int c, const wire::Msg &m);
   void reply_ok(int c, const wire::Msg &call, std::vector<wire::Value> body, bool name_set = false);
   void reply_err(int c, const wire::Msg &call, const std::string &name, std::vector<std::string> any_of = {});
